@@ -33,6 +33,12 @@ const COMPS: &[(&str, Option<&str>, bool, &str)] = &[
     ("test:c", None, true, "i0"),
     ("test:d", Some("1.2.3"), true, "i0"),
     ("test:a", None, true, "i1"),
+    // providers of a second interface and pass-through components with TWO imports, so that a
+    // `new` has two named arguments, each of which can hold a nested `new`
+    ("test:ob", None, false, "o0"),
+    ("test:ob", Some("0.9.0"), false, "o0"),
+    ("test:w", None, true, "w"),
+    ("test:w", Some("2.0.0"), true, "w"),
     ("unrelated:x", None, false, "i0"),
     ("unrelated:y", Some("3.0.0"), true, "i0"),
 ];
@@ -47,9 +53,21 @@ pub fn build_lib() -> Result<Lib, String> {
         let b = witgen::encode_wit_package(&[], &wit_text(n, *v)).map_err(|e| format!("{e:#}"))?;
         all.push(((n.to_string(), v.map(str::to_string)), b));
     }
-    let libt = vec![("lib".to_string(), wit_text("ns:lib", None))];
+    let libt = vec![("lib".to_string(), wit_text("ns:lib", None)), ("other".to_string(), wit_text("ns:other", None))];
     for (n, v, imp, exp) in COMPS {
-        let world = format!("package {n};\n\nworld w {{\n{}    export ns:lib/{exp};\n}}\n", if *imp { "    import ns:lib/i0;\n" } else { "" });
+        let export = match *exp {
+            "o0" => "ns:other/i0".to_string(),
+            "w" => "ns:lib/i0".to_string(),
+            e => format!("ns:lib/{e}"),
+        };
+        let mut imports = String::new();
+        if *imp {
+            imports.push_str("    import ns:lib/i0;\n");
+        }
+        if *exp == "w" {
+            imports.push_str("    import ns:other/i0;\n");
+        }
+        let world = format!("package {n};\n\nworld w {{\n{imports}    export {export};\n}}\n");
         let b = witgen::build_component(&libt, &world, "w").map_err(|e| format!("{e:#}"))?;
         all.push(((n.to_string(), v.map(str::to_string)), b));
     }
@@ -120,6 +138,23 @@ impl DocGen<'_> {
         if depth >= 3 || self.rng.chance(1, 3) {
             let c = self.comp_ref(nested_pos, Some(false), "i0");
             return format!("new {c} {{}}");
+        }
+        if depth < 3 && self.rng.chance(1, 4) {
+            // two named arguments, each with its own nested `new`, in either order
+            let c = self.comp_ref(nested_pos, Some(true), "w");
+            let first_is_lib = self.rng.chance(1, 2);
+            let mut parts: Vec<String> = Vec::new();
+            for k in 0..2 {
+                if (k == 0) == first_is_lib {
+                    let inner = self.expr_i0(depth + 1, "new:nested-in-named-argument");
+                    parts.push(format!("\"ns:lib/i0\": {inner}[\"ns:lib/i0\"]"));
+                } else {
+                    let o = self.comp_ref("new:nested-in-a-later-named-argument", Some(false), "o0");
+                    let inner = if self.rng.chance(1, 2) { format!("new {o} {{}}") } else { format!("(new {o} {{}})") };
+                    parts.push(format!("\"ns:other/i0\": {inner}[\"ns:other/i0\"]"));
+                }
+            }
+            return format!("new {c} {{ {} }}", parts.join(", "));
         }
         let c = self.comp_ref(nested_pos, Some(true), "i0");
         match self.rng.below(6) {
